@@ -110,6 +110,80 @@ def guard_is(guards, text):
     return sorted(flat) == sorted(norm(w) for w in wl)
 
 
+class _BoolItem:
+    def __init__(self, node):
+        self.node = node
+
+
+def _cmp_norm(a, op, b):
+    # orientation-insensitive: constants to the right, otherwise the textually smaller operand first
+    ta, tb = norm(a), norm(b)
+    op = type(op)
+    ca, cb = isinstance(a, ast.Constant), isinstance(b, ast.Constant)
+    if (ca and not cb) or (ca == cb and ta > tb):
+        ta, tb, op = tb, ta, _ORIENT[op]
+    return f'({ta} {_SYM[op]} {tb})'
+
+
+def _bool_norm(kind, values):
+    """Conjunction / disjunction as a sorted set: nested ones of the same kind flattened, comparison chains split into their
+    links, membership in a literal turned into equalities, and (in a conjunction) equalities merged into classes, so that
+    `a == b == c` is `a == b and b == c` is `c == a and b == a`."""
+    items, eqs, consts = [], [], set()
+
+    def add(v):
+        if isinstance(v, _BoolItem):
+            v = v.node
+        if isinstance(v, ast.BoolOp) and type(v.op) is kind:
+            for x in v.values:
+                add(x)
+        elif kind is ast.And and isinstance(v, ast.Compare) and len(v.ops) > 1 and all(type(o) in _ORIENT for o in v.ops):
+            left = v.left
+            for o, c in zip(v.ops, v.comparators):
+                add(ast.Compare(left=left, ops=[o], comparators=[c]))
+                left = c
+        elif isinstance(v, ast.Compare) and len(v.ops) == 1 and isinstance(v.ops[0], ast.In if kind is ast.Or else ast.NotIn) \
+                and isinstance(v.comparators[0], (ast.Tuple, ast.List, ast.Set)) and v.comparators[0].elts \
+                and not any(isinstance(e, ast.Starred) for e in v.comparators[0].elts):
+            for e in v.comparators[0].elts:
+                add(ast.Compare(left=v.left, ops=[ast.Eq() if kind is ast.Or else ast.NotEq()], comparators=[e]))
+        elif kind is ast.And and isinstance(v, ast.Compare) and len(v.ops) == 1 and isinstance(v.ops[0], ast.Eq):
+            eqs.append((norm(v.left), norm(v.comparators[0])))
+            for side in (v.left, v.comparators[0]):
+                if isinstance(side, ast.Constant):
+                    consts.add(norm(side))
+        else:
+            items.append(norm(v))
+    for v in values:
+        add(v)
+    if eqs:
+        parent = {}
+
+        def find(x):
+            parent.setdefault(x, x)
+            while parent[x] != x:
+                parent[x] = parent[parent[x]]
+                x = parent[x]
+            return x
+        for a, b in eqs:
+            parent[find(a)] = find(b)
+        classes = {}
+        for x in list(parent):
+            classes.setdefault(find(x), set()).add(x)
+        for members in classes.values():
+            ms = sorted(members)
+            if len(ms) == 2:
+                # keep the plain comparison form (constants right) so single equalities look as before
+                a, b = ms
+                items.append(f'({b} == {a})' if (a in consts and b not in consts) else f'({a} == {b})')
+            else:
+                items.append('(' + ' == '.join(ms) + ')')
+    items = sorted(set(items))
+    if len(items) == 1:
+        return items[0]
+    return '(' + (' and ' if kind is ast.And else ' or ').join(items) + ')'
+
+
 def norm(node):
     """Canonical text: commutative operands sorted, redundant parentheses gone (via unparse)."""
     if isinstance(node, ast.BinOp) and isinstance(node.op, _COMM):
@@ -130,15 +204,18 @@ def norm(node):
         return f'({norm(node.left)}{sym}{norm(node.right)})'
     if isinstance(node, ast.Constant):
         return repr(node.value)
+    if isinstance(node, ast.Compare) and len(node.ops) == 1 and isinstance(node.ops[0], (ast.In, ast.NotIn)) \
+            and isinstance(node.comparators[0], (ast.Tuple, ast.List, ast.Set)) and node.comparators[0].elts \
+            and not any(isinstance(e, ast.Starred) for e in node.comparators[0].elts):
+        # membership in a literal collection = a disjunction of equalities
+        pos = isinstance(node.ops[0], ast.In)
+        items = [_BoolItem(ast.Compare(left=node.left, ops=[ast.Eq() if pos else ast.NotEq()], comparators=[e])) for e in node.comparators[0].elts]
+        return _bool_norm(ast.Or if pos else ast.And, items)
     if isinstance(node, ast.Compare) and len(node.ops) == 1 and type(node.ops[0]) in _ORIENT:
-        # orientation-insensitive: constants to the right, otherwise the textually smaller operand first
-        a, b = node.left, node.comparators[0]
-        ta, tb = norm(a), norm(b)
-        op = type(node.ops[0])
-        ca, cb = isinstance(a, ast.Constant), isinstance(b, ast.Constant)
-        if (ca and not cb) or (ca == cb and ta > tb):
-            ta, tb, op = tb, ta, _ORIENT[op]
-        return f'({ta} {_SYM[op]} {tb})'
+        return _cmp_norm(node.left, node.ops[0], node.comparators[0])
+    if isinstance(node, ast.Compare) and all(type(o) in _ORIENT for o in node.ops):
+        # a chain is the conjunction of its links
+        return _bool_norm(ast.And, [node])
     if isinstance(node, ast.Compare):
         parts = [norm(node.left)]
         for o, c in zip(node.ops, node.comparators):
@@ -153,8 +230,7 @@ def norm(node):
         inner = ', '.join(norm(e) for e in node.elts)
         return ('(' + inner + (',' if len(node.elts) == 1 else '') + ')') if isinstance(node, ast.Tuple) else '[' + inner + ']'
     if isinstance(node, ast.BoolOp) and isinstance(node.op, (ast.And, ast.Or)):
-        sym = ' and ' if isinstance(node.op, ast.And) else ' or '
-        return '(' + sym.join(sorted(norm(v) for v in node.values)) + ')'
+        return _bool_norm(type(node.op), node.values)
     if isinstance(node, ast.Call):
         return f'{norm(node.func)}({",".join([norm(a) for a in node.args] + sorted(f"{k.arg}={norm(k.value)}" for k in node.keywords))})'
     if isinstance(node, ast.Subscript) and not isinstance(node.slice, ast.Slice):
@@ -327,3 +403,147 @@ def unpack_targets(fn, call_pattern_pred):
                 and isinstance(n.value, ast.Call) and call_pattern_pred(n.value):
             return [t.id if isinstance(t, ast.Name) else None for t in n.targets[0].elts]
     return None
+
+
+# -- propositional comparison of conditions -------------------------------------------------------------
+
+_COMPL = {ast.NotEq: ast.Eq, ast.IsNot: ast.Is, ast.NotIn: ast.In}
+
+
+def prop(node):
+    """Condition as a propositional formula over atoms (normalised texts): ('atom', t) | ('not', f) | ('and', [f..]) |
+    ('or', [f..]) | ('const', bool).  Comparison chains are conjunctions of their links, membership in a literal collection is
+    a disjunction of equalities, `!=`, `>=`, `>`, `is not`, `not in` are the negations of `==`, `<`, `<=`, `is`, `in`
+    (the operands compared in this code base are ints, strings and None)."""
+    if isinstance(node, ast.BoolOp):
+        return ('and' if isinstance(node.op, ast.And) else 'or', [prop(v) for v in node.values])
+    if isinstance(node, ast.UnaryOp) and isinstance(node.op, ast.Not):
+        return ('not', prop(node.operand))
+    if isinstance(node, ast.Constant) and isinstance(node.value, (bool, type(None))):
+        return ('const', bool(node.value))
+    if isinstance(node, ast.Compare):
+        if len(node.ops) > 1:
+            links, left = [], node.left
+            for o, c in zip(node.ops, node.comparators):
+                links.append(prop(ast.Compare(left=left, ops=[o], comparators=[c])))
+                left = c
+            return ('and', links)
+        op, a, b = node.ops[0], node.left, node.comparators[0]
+        if isinstance(op, (ast.In, ast.NotIn)) and isinstance(b, (ast.Tuple, ast.List, ast.Set)) and b.elts \
+                and not any(isinstance(e, ast.Starred) for e in b.elts):
+            f = ('or', [prop(ast.Compare(left=a, ops=[ast.Eq()], comparators=[e])) for e in b.elts])
+            return f if isinstance(op, ast.In) else ('not', f)
+        if type(op) in _COMPL:
+            return ('not', prop(ast.Compare(left=a, ops=[_COMPL[type(op)]()], comparators=[b])))
+        if isinstance(op, (ast.Lt, ast.LtE, ast.Gt, ast.GtE)):
+            # all four orderings of a pair of operands are expressed with the two atoms (X < Y), (X <= Y) for one fixed
+            # order X, Y of the pair (non-constant first, then textual)
+            ta, tb = norm(a), norm(b)
+            swapped = (isinstance(a, ast.Constant) and not isinstance(b, ast.Constant)) or \
+                (isinstance(a, ast.Constant) == isinstance(b, ast.Constant) and ta > tb)
+            x, y = (tb, ta) if swapped else (ta, tb)
+            kind = type(op)
+            if swapped:
+                kind = {ast.Lt: ast.Gt, ast.LtE: ast.GtE, ast.Gt: ast.Lt, ast.GtE: ast.LtE}[kind]
+            if kind is ast.Lt:
+                return ('atom', f'({x} < {y})')
+            if kind is ast.LtE:
+                return ('atom', f'({x} <= {y})')
+            if kind is ast.Gt:
+                return ('not', ('atom', f'({x} <= {y})'))
+            return ('not', ('atom', f'({x} < {y})'))
+        return ('atom', norm(node))
+    return ('atom', norm(node))
+
+
+def _atoms(f, acc):
+    if f[0] == 'atom':
+        acc.add(f[1])
+    elif f[0] == 'not':
+        _atoms(f[1], acc)
+    elif f[0] in ('and', 'or'):
+        for x in f[1]:
+            _atoms(x, acc)
+    return acc
+
+
+def _evalf(f, asg):
+    if f[0] == 'atom':
+        return asg[f[1]]
+    if f[0] == 'const':
+        return f[1]
+    if f[0] == 'not':
+        return not _evalf(f[1], asg)
+    if f[0] == 'and':
+        return all(_evalf(x, asg) for x in f[1])
+    return any(_evalf(x, asg) for x in f[1])
+
+
+def equiv(f, g, limit=14):
+    """Are two formulas (from prop / path) equal as functions of their atoms?  Unknown beyond `limit` atoms."""
+    atoms = sorted(_atoms(f, set()) | _atoms(g, set()))
+    if len(atoms) > limit:
+        raise Unknown(f'condition with {len(atoms)} atoms is beyond the truth-table limit')
+    for k in range(1 << len(atoms)):
+        asg = {a: bool(k >> i & 1) for i, a in enumerate(atoms)}
+        if _evalf(f, asg) != _evalf(g, asg):
+            return False
+    return True
+
+
+def same_cond(node, text):
+    """Is the condition `node` propositionally the condition `text`?"""
+    want = ast.parse(text, mode='eval').body
+    if norm(node) == norm(want):
+        return True
+    return equiv(prop(node), prop(want))
+
+
+def _always_exits(block):
+    if not block:
+        return False
+    last = block[-1]
+    if isinstance(last, (ast.Return, ast.Raise, ast.Continue, ast.Break)):
+        return True
+    if isinstance(last, ast.If):
+        return _always_exits(last.body) and bool(last.orelse) and _always_exits(last.orelse)
+    return False
+
+
+def path(node, stop):
+    """The condition under which `node` is reached from the start of `stop` (a function, loop or other enclosing node), as
+    a formula: enclosing if/elif tests with their polarity, and the negation of every earlier sibling `if` whose branch
+    always leaves (return / raise / continue / break)."""
+    conj = []
+    child = node
+    p = getattr(node, '_parent', None)
+    while p is not None and child is not stop:
+        if isinstance(p, ast.If):
+            if child in p.body:
+                conj.append(prop(p.test))
+            elif child in p.orelse:
+                conj.append(('not', prop(p.test)))
+        elif isinstance(p, ast.IfExp):
+            if child is p.body:
+                conj.append(prop(p.test))
+            elif child is p.orelse:
+                conj.append(('not', prop(p.test)))
+        elif isinstance(p, ast.While) and p is not stop and child in p.body:
+            conj.append(prop(p.test))
+        for fld in ('body', 'orelse', 'finalbody'):
+            lst = getattr(p, fld, None)
+            if isinstance(lst, list) and child in lst:
+                for s in lst[:lst.index(child)]:
+                    if isinstance(s, ast.If):
+                        b, o = _always_exits(s.body), _always_exits(s.orelse)
+                        if b and not o:
+                            conj.append(('not', prop(s.test)))
+                        elif o and not b:
+                            conj.append(prop(s.test))
+        child = p
+        p = getattr(p, '_parent', None)
+    return ('and', conj)
+
+
+def any_path(nodes, stop):
+    return ('or', [path(n, stop) for n in nodes])
